@@ -5,13 +5,13 @@ from tools import dfir, vlib
 class C26(dfir.DfirSpec):
     tag = "C26"
     props_vo = "theories/Props/C26.vo"
-    theorems = ["C26_gate_semantics", "C26_fixpoint", "C26_loop_defer"]
+    theorems = ["C26_gate_semantics", "C26_fixpoint", "C26_loop_defer", "C26_selection_rules"]
     modes = ("ticks", "avail")
-    level = "other"
-    explanation = "Not category proof: which handoffs enter a loop's check list / swap list (non-lazy entry inputs and loop-delayed back buffers; batch_lazy excluded) is decided by the Python lowering of the real meta graph, not by a Coq function proved against a graph model; the documented release behaviour of batch/batch_lazy/all_iterations is covered by correspondence only. Proved: C26_gate_semantics, C26_fixpoint, C26_loop_defer."
+    level = "proof"
     assumptions = [
-        "the loop structure (gate checks, per-loop swaps, exit-handoff declarations, schedule list) is lowered from "
-        "the real meta_graph() by tools/dfir.py following emit_loop_gate / as_code_with_options; validated by the cases",
+        "gate checks, swap lists, exit-handoff declarations, schedule list and the Tick->Loop remap are computed in Coq "
+        "(ModelGraph.lower) from the graph record of the real meta_graph(); tools/dfir.py transports the record and "
+        "the nesting of blocks only; bit0 includes agreement of the computed delay types with the recorded ones",
         "batch / batch_lazy / all_iterations are identities in the operator layer (their write_fn is the identity); "
         "their windowing behaviour is the entry/exit handoff and gate handling of the tick program",
         "termination is not claimed; model loops take fuel 64 and report exhaustion",
@@ -29,10 +29,10 @@ class C26(dfir.DfirSpec):
             return 3
         p = dfir.catalogue()[case["prog"]]
         e = "None" if p.expect is None else "(Some (%s))" % p.expect
-        return "c26_chk %s prog_%d %s %s %s %s %s" % (
+        return dfir.guard(case["prog"], "c26_chk %s prog_%d %s %s %s %s %s" % (
             "true" if case["mode"] == "avail" else "false", case["prog"], e,
             dfir.g_bools(p.sinks), dfir.g_hist(case["hist"]), dfir.g_outs(res["outs"]),
-            "[" + "; ".join(str(x) for x in res["obs"]) + "]")
+            "[" + "; ".join(str(x) for x in res["obs"]) + "]"))
 
 
 def main(ctx):
